@@ -137,7 +137,8 @@ fn ro_op(g: &mut NsGen, rng: &mut SplitMix64) -> bool {
 
 fn random_history(id: String, seed: u64, cat: &Catalogue, rng: &mut SplitMix64, sink: &mut Sink) {
     let vol = if rng.chance(4, 5) { cat.pick_small_cluster(rng, 8192) } else { cat.pick(rng) };
-    let cfg = Cfg::new(!rng.chance(1, 8), rng.chance(1, 10), ClockMode::Const);
+    let mut cfg = Cfg::new(!rng.chance(1, 8), rng.chance(1, 10), ClockMode::Const);
+    cfg.optorder = optorder_of(&id);
     let mut cx = Ctx::new(id, "ro", seed, vol, cfg);
     cx.format();
     cx.mount();
